@@ -225,13 +225,52 @@ def writeback_origin(ctx, rule):
             if call_name(call)[1] == 'create_solution_from' and idx > 0:
                 continue            # the last result is the created container, stored under the step's destination
             okey = _origin_key(args[idx], before, ff)
-            ok = okey is not None and same_value(strip_refs(okey), strip_refs(rt.slice))
+            ok = okey is not None and (same_value(strip_refs(okey), strip_refs(rt.slice)) or _same_name(okey, rt.slice))
             ctx.ob(rule, bake, stmt.lineno, f"`{op}` branch: result {idx} of `{call_name(call)[1]}` goes back under the name "
                                                 f"operand {idx} was read from", ok,
                    fact=f"stored under `{show(rt.slice, 20)}`, operand read from `{show(okey, 20) if okey is not None else '?'}`",
                    why='the updated object is stored under another name: one declared object is lost, another overwritten',
                    key=f"write-back name mismatch in {op}")
 
+
+
+def _name_roots(e, depth=0):
+    """The objects whose name an expression denotes: `x.name`, `x.plate.name`, and conditional / joined choices between
+    them (`x.plate.name if isinstance(x, PlateSlicer) else x.name`).  None if it is anything else."""
+    if depth > 10:
+        return None
+    if isinstance(e, Ref):
+        return _name_roots(e.value, depth + 1)
+    if isinstance(e, Phi):
+        parts = [_name_roots(o, depth + 1) for o in e.options]
+        return None if any(p_ is None for p_ in parts) else set().union(*parts)
+    if isinstance(e, ast.IfExp):
+        a, b = _name_roots(e.body, depth + 1), _name_roots(e.orelse, depth + 1)
+        return None if a is None or b is None else a | b
+    if isinstance(e, ast.Attribute) and e.attr == 'name':
+        v = e.value
+        if isinstance(strip_refs(v), ast.Attribute) and strip_refs(v).attr == 'plate':
+            v = strip_refs(v).value
+        r = v
+        hops = 0
+        while isinstance(r, Ref) and isinstance(r.value, Ref) and hops < 10:
+            r = r.value
+            hops += 1
+        if isinstance(r, Ref):
+            return {('ref', r.defid)}
+        r0 = strip_refs(r)
+        k = getattr(r0, 'pkey', None)
+        if k:
+            return {('path', k)}
+        if isinstance(r0, Param):
+            return {('param', r0.name)}
+    return None
+
+
+def _same_name(a, b):
+    """Do two name expressions denote the name of the same object (whatever its kind)?"""
+    ra, rb = _name_roots(a), _name_roots(b)
+    return ra is not None and rb is not None and len(ra) == 1 and ra == rb
 
 
 def operands_written_back(ctx, rule, only=None):
